@@ -54,6 +54,57 @@ impl Instant {
             _ => Duration::ZERO,
         }
     }
+
+    /// Like [`std::time::Instant::checked_duration_since`]
+    pub fn checked_duration_since(&self, earlier: Instant) -> Option<Duration> {
+        match (self, earlier) {
+            (Instant::Real(a), Instant::Real(b)) => a.checked_duration_since(b),
+            (Instant::Virtual(a), Instant::Virtual(b)) => a.checked_sub(b),
+            _ => None,
+        }
+    }
+
+    /// Like [`std::time::Instant::saturating_duration_since`]
+    pub fn saturating_duration_since(&self, earlier: Instant) -> Duration {
+        self.duration_since(earlier)
+    }
+
+    /// Like [`std::time::Instant::elapsed`]
+    pub fn elapsed(&self) -> Duration {
+        Instant::now().duration_since(*self)
+    }
+
+    /// Like [`std::time::Instant::checked_add`]
+    pub fn checked_add(&self, duration: Duration) -> Option<Instant> {
+        match self {
+            Instant::Real(a) => a.checked_add(duration).map(Instant::Real),
+            Instant::Virtual(a) => a.checked_add(duration).map(Instant::Virtual),
+        }
+    }
+
+    /// Like [`std::time::Instant::checked_sub`]
+    pub fn checked_sub(&self, duration: Duration) -> Option<Instant> {
+        match self {
+            Instant::Real(a) => a.checked_sub(duration).map(Instant::Real),
+            Instant::Virtual(a) => a.checked_sub(duration).map(Instant::Virtual),
+        }
+    }
+}
+
+impl std::ops::Sub<Instant> for Instant {
+    type Output = Duration;
+
+    fn sub(self, rhs: Instant) -> Duration {
+        self.duration_since(rhs)
+    }
+}
+
+impl std::ops::Sub<Duration> for Instant {
+    type Output = Instant;
+
+    fn sub(self, rhs: Duration) -> Instant {
+        self.checked_sub(rhs).expect("overflow when subtracting duration from instant")
+    }
 }
 
 impl Add<Duration> for Instant {
